@@ -119,10 +119,36 @@ class SymRat(object):
     __hash__ = None
 
     def __mul__(s, k):
+        if isinstance(k, float) and k == int(k):
+            k = int(k)
         if isinstance(k, (int, SymInt)):
             return SymRat(s.num * k, s.den)
         raise Inconclusive('SymRat arithmetic')
     __rmul__ = __mul__
+
+    def __add__(s, o):
+        if isinstance(o, float) and o == int(o):
+            o = int(o)
+        if isinstance(o, (int, SymInt)):
+            return SymRat(s.num + o * s.den, s.den)
+        if isinstance(o, SymRat):
+            if o.den == s.den:
+                return SymRat(s.num + o.num, s.den)
+            return SymRat(s.num * o.den + o.num * s.den, s.den * o.den)
+        raise Inconclusive('SymRat arithmetic')
+    __radd__ = __add__
+
+    def __neg__(s):
+        return SymRat(-s.num, s.den)
+
+    def __sub__(s, o):
+        return s + (-o)
+
+    def __sx_int__(s):
+        # int() truncates toward zero
+        q = abs(s.num) // s.den
+        from .symint import ite
+        return ite(s.num < 0, -q, q) if isinstance(s.num, SymInt) else (-(-s.num // s.den) if s.num < 0 else s.num // s.den)
 
     def __repr__(s):
         return 'SymRat(/%d)' % s.den
